@@ -28,7 +28,7 @@ func main() {
 			}
 		}
 	}
-	o := h.Run(string(b), h.Opts{EvalTicks: 1000000, MaxDepth: 5000, Modules: mods})
+	o := h.Run(string(b), h.Opts{EvalTicks: 4000000000, MaxDepth: 100000000, Modules: mods})
 	for _, l := range o.Trace {
 		fmt.Println("| " + l)
 	}
